@@ -225,6 +225,24 @@ check("C10", "model_checking",
       "TLA+ model checking of abstract surgery (TLC) + TLC-enumerated operation chains replayed into the real code and judged by TLC",
       "DESIGN.md §5 C10")
 
+check("C18", "model_checking",
+      "Charts.tla models the chart-growing loop of the surface parameterisation (seed, pop of ANY queued neighbour - the "
+      "priority function is abstracted away -, the code's 'would divide the boundary' guard, close, cut of a closed-up "
+      "sphere) and TLC checks for every growth order on a tetrahedron, an octahedron and an annulus (and simulated orders "
+      "on a 3x3 torus) that every prefix of the growth is a topological disc and that the finished charts are discs that "
+      "partition the faces. The real MeshToPlaneGraphs / MeshToPlaneGraphsLimited (size and area limits) / "
+      "SplitPlaneGraph run on 12 meshes (closed of genus 0-2, two components, open disc, annulus) and TLC (ChartJudge) "
+      "checks partition, disc topology (edge-connected, <= 2 faces per edge, Euler characteristic 1, boundary one simple "
+      "cycle) and size limits; Floater97 (3 weightings x 3 boundary shapes, default solver) on the resulting discs and on "
+      "one-interior-vertex fans: boundary fixed, interior vertices at the weighted mean, no flipped triangle; "
+      "BuildAutomaticUVMap: unit square, pairwise disjoint chart boxes, barycentric round trip through MapFn. TLC "
+      "(IslandGen) enumerates every layout of 3 (4) lattice UV islands and compares the point MapFn used for ~250 "
+      "half-lattice queries (gutters included) with the exact nearest-point distance.",
+      "Trusted: TLC; the weighted-mean (1e-5) and flip tests and the rounding of atlas boxes are done in the harness and "
+      "handed to TLC as booleans / integer boxes. Stretch-minimising parameterisation and packing quality are not covered.",
+      "TLA+ model checking of the chart loop (TLC) + TLC judging of real decompositions, parameterisations and UV lookups",
+      "DESIGN.md §5 C18")
+
 _pending = "check not built yet in this session (planned, see DESIGN.md §10)"
 for pid in ["C01","C02","C03","C04","C05","C06","C07","C08","C10","C11","C12","C13","C14","C15","C16","C17","C18","C20"]:
     if pid not in CHECKS:
